@@ -31,6 +31,7 @@ pub mod c08;
 pub mod cfimodel;
 pub mod exprvm;
 pub mod fullasm;
+pub mod split;
 
 use crate::core::Prop;
 
